@@ -9,7 +9,7 @@ use std::collections::BTreeMap;
 use std::sync::{Arc, Mutex};
 
 #[derive(Serialize, Deserialize, Clone, Debug)]
-pub struct WinCase { pub hash_seed: u64, pub width: usize, pub slide: usize, pub start: usize, pub items: Vec<(u32, usize)>, pub non_empty_strategy: bool, pub channel: bool, pub shuttle_seed: u64, pub pct: bool }
+pub struct WinCase { pub hash_seed: u64, pub width: usize, pub slide: usize, pub start: usize, pub items: Vec<(u32, usize)>, pub non_empty_strategy: bool, pub channel: bool, pub shuttle_seed: u64, pub pct: bool, #[serde(default)] pub prob_mask: u64 }
 pub struct C09;
 type Content = Vec<(u32, usize)>;
 
@@ -42,7 +42,7 @@ impl Prop for C09 {
             items.push((if dup { r.below(5) as u32 } else { k as u32 }, gap));
         }
         let channel = cfg.chance(1, 12);
-        WinCase { hash_seed: Rng::sub(seed, "hash").next(), width, slide, start: r.usize(6), items, non_empty_strategy: cfg.chance(1, 6), channel, shuttle_seed: Rng::sub(seed, "shuttle").next(), pct: cfg.chance(1, 2) }
+        WinCase { hash_seed: Rng::sub(seed, "hash").next(), width, slide, start: r.usize(6), items, non_empty_strategy: cfg.chance(1, 6), channel, shuttle_seed: Rng::sub(seed, "shuttle").next(), pct: cfg.chance(1, 2), prob_mask: if cfg.chance(1, 4) { r.next() } else { 0 } }
     }
     fn exec(&self, c: &WinCase, ctx: &mut Ctx) -> Option<Violation> {
         if c.width == 0 || c.slide == 0 || c.items.is_empty() { return None; }
@@ -56,9 +56,14 @@ impl Prop for C09 {
         let f2 = fired.clone();
         win.register_callback(Box::new(move |cc: ContentContainer<u32>| { f2.lock().unwrap().push(snapshot(&cc)); }));
         let mut firings: Vec<(usize, Content)> = vec![];
-        for (id, ts) in &arrivals {
+        // some items arrive as probabilistic occurrences (the twin ingestion path of the window)
+        let mut registry = shared::hybrid::SeedRegistry::new();
+        for (k, (id, ts)) in arrivals.iter().enumerate() {
             let before = fired.lock().unwrap().len();
-            win.add_to_window(*id, *ts);
+            if (c.prob_mask >> (k % 64)) & 1 == 1 {
+                let event = registry.next_event_key("s", *ts);
+                match registry.register_occurrence(event.clone(), shared::triple::Triple { subject: *id, predicate: 0, object: 0 }, 0.5) { Ok(seed_id) => { win.add_probabilistic_to_window(kolibrie::rsp::s2r::ProbabilisticOccurrence { item: *id, event, seed_id }); ctx.hit("fault.probabilistic_occurrence_ingested"); } Err(_) => win.add_to_window(*id, *ts) }
+            } else { win.add_to_window(*id, *ts); }
             let g = fired.lock().unwrap();
             if g.len() > before + 1 { return Some(Violation::new("several-reports-for-one-arrival", format!("arrival ({}, t={}) triggered {} reports", id, ts, g.len() - before))); }
             if g.len() > before { firings.push((*ts, g.last().unwrap().clone())); ev!(ctx.log, "t={} fires {:?}", ts, g.last().unwrap()); }
@@ -130,6 +135,7 @@ impl Prop for C09 {
         if c.slide > 1 { out.push(WinCase { slide: c.slide - 1, ..c.clone() }); }
         if c.channel { out.push(WinCase { channel: false, ..c.clone() }); }
         if c.non_empty_strategy { out.push(WinCase { non_empty_strategy: false, ..c.clone() }); }
+        if c.prob_mask != 0 { out.push(WinCase { prob_mask: 0, ..c.clone() }); }
         out
     }
     fn rule(&self) -> String { "A case is one in-order stream (<= 40 items, bursts with equal timestamps, gaps <= slide, small gaps, jumps far beyond the width, repeated items) pushed into a real CSPARQLWindow with width, slide in 1..12 (independently; width < slide and width not a multiple of slide included) through the callback and - in 1 run in 12 - through the channel with a consumer thread under a seeded shuttle schedule. Oracle over the recorded history: every report is the item set of one aligned interval not after its trigger, triggers strictly increase, intervals are non-decreasing and none is reported twice; with gaps <= slide every non-empty closing interval is reported exactly once; channel and callback agree. Non-trivial = at least 2 reports; distinct = hash of (width, slide, arrivals).".into() }
